@@ -151,10 +151,13 @@ def substitution_loops(F, E, root_fn):
                         for x in ir.walk(e):
                             if x['k'] == 'ctor' and (x.get('cls') or '').startswith('ffsm2::detail::GuardControlT<') and not (x.get('cls') or '').endswith('::Lock'):
                                 hit = True
-                            elif x['k'] == 'call' and x.get('fn') is not None:
-                                h = F.fn(x['fn'])
-                                if h is not None and h.tkey in ROOT_TKEYS and (constructs_guard_control(F, h) or any(constructs_guard_control(F, k) for k in E.calls_star(h).values())):
-                                    hit = True
+                            elif x['k'] == 'call' and (x.get('fn') is not None or x.get('pm')):
+                                cands = [F.fn(x['fn'])] if x.get('fn') is not None else []
+                                if x.get('pm'):      # through a member-function pointer handed in by the callers
+                                    cands += [F.fn(r['fn']) for r in E.resolve_pm_all(g, x) if r.get('fn') is not None]
+                                for h in cands:
+                                    if h is not None and h.tkey in ROOT_TKEYS and (constructs_guard_control(F, h) or any(constructs_guard_control(F, k) for k in E.calls_star(h).values())):
+                                        hit = True
                 if hit:
                     out.append((g, st))
     return out
@@ -235,19 +238,28 @@ def flatten_apex_calls(F, E, fn, depth=0):
         raise AnalysisBroken('call depth while flattening ' + fn.short)
     c = cfgmod.cfg_of(fn)
 
+    def targets(n):
+        """resolved callees of a call node: the one callee of a direct call; for a call through a member-function pointer every function
+        the pointer can hold (the callers' arguments)"""
+        if n.e.get('fn') is not None:
+            g = F.fn(n.e['fn'])
+            return [g] if g is not None else []
+        if n.e.get('pm'):
+            return [F.fn(r['fn']) for r in E.resolve_pm_all(fn, n.e) if r.get('fn') is not None and F.fn(r['fn']) is not None]
+        return []
+
     def is_apex(n):
         # a dispatch into the region: the resolved callee is a member of the composite (the machine has exactly one, its apex),
         # whether it is reached through `_apex` directly or through a reference the function cached
-        g, _ = call_target(F, E, fn, n) if n.e.get('fn') is not None else (None, None)
-        return g is not None and g.tkey == 'ffsm2::detail::C_'
+        ts = targets(n) if n.e.get('fn') is not None else []
+        return bool(ts) and ts[0].tkey == 'ffsm2::detail::C_'
 
     def interesting(n):
         if n.kind != 'call':
             return False
         if is_apex(n):
             return True
-        g, _ = call_target(F, E, fn, n)
-        return g is not None and g.tkey in ROOT_TKEYS and g.id != fn.id
+        return any(g.tkey in ROOT_TKEYS and g.id != fn.id for g in targets(n))
     evs, _, ordered = ordered_events(c, interesting)
     out = []
     for n in evs:
@@ -256,9 +268,10 @@ def flatten_apex_calls(F, E, fn, depth=0):
         if is_apex(n):
             out.append((n.e.get('m'), n, uncond, loop, ordered))
         else:
-            g, _ = call_target(F, E, fn, n)
-            for (m, n2, u2, l2, o2) in flatten_apex_calls(F, E, g, depth + 1):
-                out.append((m, n2, uncond and u2, loop or l2, ordered and o2))
+            ts = [g for g in targets(n) if g.tkey in ROOT_TKEYS and g.id != fn.id]
+            for g in ts:
+                for (m, n2, u2, l2, o2) in flatten_apex_calls(F, E, g, depth + 1):
+                    out.append((m, n2, uncond and u2 and len(ts) == 1, loop or l2, ordered and o2))
     return out
 
 
